@@ -274,6 +274,27 @@ def parser_ownership(c, chk):
                 if is_alloc_failure_path(tr.path):
                     continue
                 report_finding(c, chk, fn, fd, seen, tr.path)
+            # a value slot handed back by the store is not read any more once a call was made that can release the option's values
+            # (the handling of a deprecated option that is to be dropped): use after release
+            stores_ = [e for e in tr.events if e.kind == 'call' and e.name == 'cfg_setopt' and e.res is not None]
+            for so_ in stores_:
+                k0 = tr.events.index(so_)
+                rel = None
+                for k1, e in enumerate(tr.events[k0 + 1:], k0 + 1):
+                    if rel is None and e.kind == 'call' and not e.inlined and c.func(e.name) is not None and e.name != 'cfg_setopt' and any(a == ('p', 'opt') for a in e.args) \
+                            and 'cfg_free_value' in _cfg.transitive(c.callgraph, [e.name]):
+                        rel = e
+                    elif rel is not None and e.kind in ('store', 'call') and not getattr(e, 'inlined', False):
+                        used = [v_ for v_ in ([e.val] if e.kind == 'store' else list(e.args or ()))
+                                if sym.mentions(v_, lambda v: v[0] == 'ld' and sym.mentions(v[1], lambda w: w == so_.res))]
+                        if not used:
+                            continue
+                        key = 'use-after-release:cfg_parse_internal:state%d' % s
+                        if key not in seen:
+                            seen.add(key)
+                            chk.fail('R7.2', key, c.where(e.ins), 'cfg_parse_internal(), state %d: the value slot returned by cfg_setopt() is read (%s) after %s() was called on the option, '
+                                     'which releases the option\'s values when it is deprecated and to be dropped' % (s, sym.render(used[0]), rel.name), witness=[tr.describe()])
+                        break
             # loop-carried owners
             for var in owners:
                 old = ('p', var)
@@ -699,6 +720,43 @@ def include_rule(c, chk, ex):
                  'after a failed parse include files stay open and the include depth is used up' % fn_.name, witness=['path condition: ' + ' && '.join(
                      ('' if t else '!') + sym.render(cn) for cn, t, _ in p_.assume[-4:])])
         return
+    # every level the unwinder pops had a file name saved in its stack entry (the name of the including file, a copy the entry
+    # owns): per pop, that name is released or handed back to the context
+    if not bad:
+        from .. import loops as _loops2
+        exl = sym.Explorer([c.lexer], max_visits=2, mod_sets=c.lex.mod_sets)
+        # the string member(s) of a stack entry (the entry type is anonymous: members are told apart by type)
+        import re as _re2
+        gty = (c.lexer.globals.get('@cfg_include_stack') or {}).get('ty') or ''
+        m_ = _re2.search(r'(%struct\.[A-Za-z0-9_.]+)', gty)
+        name_fields = set()
+        if m_:
+            for k_, t_ in enumerate(c.lexer.structs.get(m_.group(1)) or ()):
+                if t_.strip() == 'i8*':
+                    name_fields.add(c.lexer.field_name(m_.group(1), k_))
+        if not name_fields:
+            raise report.Broken('the include stack entry has no string member: the saved file name was not found')
+        for un in sorted(unwinders):
+            fu = c.lexer.funcs.get(un)
+            if fu is None or un == 'cfg_yylex':
+                continue          # (the end-of-file action of the scanner restores the name: part (a))
+            for h in sorted(_cfg.natural_loops(fu)):
+                for p in _loops2.iterate(exl, fu, h):
+                    if p.end != 'stop':
+                        continue
+                    net = _bs.net_counter_change(p.events, ('g', '@cfg_include_stack_ptr'))
+                    if net != -1:
+                        continue
+
+                    def saved_name(v):
+                        return sym.mentions(v, lambda x: x[0] == 'fld' and len(x) > 3 and x[3] in name_fields and sym.mentions(x[1], lambda y: y == ('g', '@cfg_include_stack')))
+                    consumed = any((e.kind == 'call' and e.name == 'free' and e.args and saved_name(e.args[0])) or
+                                   (e.kind == 'store' and saved_name(e.val) and not saved_name(e.addr)) for e in p.events)
+                    if not consumed:
+                        bad = (p, None)
+                        chk.fail('R7.6', 'unwinder-drops-name:%s' % un, c.where(fu), '%s() pops an include level without releasing the file name saved in its stack entry (or handing it back to the '
+                                 'context): after a parse refused two or more includes deep the names of the intermediate files are never released' % un)
+                        return
     if bad:
         chk.fail('R7.6', 'bracket-no-unwind', c.where(f), 'cfg_parse_fp() ' + bad[1], witness=[repr(e) for e in bad[0].events])
     elif n:
